@@ -47,7 +47,7 @@ CFG = {
                   "(emu_subparams_ignored) — finding F106f, recorded (known-findings.d/C06.json; not repaired: the repair changes CSI ? 1:5 h, which C13's child-mode "
                   "specification reads the other way), excluded from the refinement theorems (they are stated over tokOfX; NOTE tokOfX still maps a list whose LATER "
                   "parameters carry sub-parameters to the function of the first — an emulator-side fact inside F106f's region, tokOfJ_ignored_of); OSC 8 is inside the history theorem under 'the widget's OSC8 switch is on' (the default), "
-                  "which no operation changes (osc8_switch_stable); DECSTR (CSI ! p) has no arm in csi() and is ignored — decided in Spec.Term: "
+                  "which no operation changes (osc8_switch_stable); DSR 6 (CSI 6 n) in the deferred-wrap state answers column width+1 where xterm answers the last column — decided round 5: not in the property's vocabulary (a report changes neither grid nor cursor) and inside the region the text leaves unconstrained; not judged (the fact is Props/C05Replies reply_dsr); DECSTR (CSI ! p) has no arm in csi() and is ignored — decided in Spec.Term: "
                   "soft reset is not in the property's vocabulary, no token, not judged (for C13: a child that resets DECCKM/keypad mode through DECSTR keeps the application "
                   "modes — recorded in notes/C05.md 'For C13'); RIS keeps the cursor SHAPE (C06 constrains grid and cursor position only: not judged); SGR 6, 21, values > 255 and four malformed SGR shapes (notes/C06.md "
                   "D1-D4) are terminal specific and outside the judged vocabulary. Model tied to the source by Gen/TermModes.lean (dispatch through "
